@@ -76,6 +76,19 @@ theorem C28_root_count (r : Nat) (pool : List Nat) (items : List Item) (h : item
 example : (Impl.write 0 [1, 2, 3] [.mk false [.mk true []], .mk true []]).1.count = some 2 := by
   decide
 
+/-- Every item is written under its own object number: the items' ids are exactly the reserved
+pool in pre-order, hence pairwise distinct — on **every** forest (this part of the writer is
+right even where the sibling links are not). -/
+theorem C28_ids_distinct (r : Nat) (pool : List Nat) (items : List Item)
+    (hlen : pool.length = sizeList items) (hnd : pool.Nodup) :
+    (Impl.write r pool items).2.map (·.id) = pool ∧
+    ((Impl.write r pool items).2.map (·.id)).Nodup := by
+  have := ids_write posCode Item.countEntry r pool items hlen
+  exact ⟨this, by rw [Impl.write, this]; exact hnd⟩
+
+example : (Impl.write 0 [4, 5, 6] [.mk true [.mk true []], .mk true []]).2.map (·.id) = [4, 5, 6] := by
+  decide
+
 /-- Counter-witness 1 (links): roots `[A[a1], B]`, pool 1,2,3.  The code writes
 `A./Next = 2` (= a1) and root `/Last = 2`; the authored forest has `A./Next = B = 3`,
 `/Last = 3`. -/
